@@ -111,6 +111,10 @@ class DiagramExecutor:
                 raise WiringError(
                     f"Multiple sources for input port: {module_name}.{port_name}"
                 )
+            if port_name in module_inputs[module_name]:
+                raise WiringError(
+                    f"Input port has both a wire and an external value: {module_name}.{port_name}"
+                )
 
         for module_name, spec in self.diagram.modules.items():
             if spec.outputs and module_name not in self._handlers:
